@@ -61,6 +61,7 @@ class Server:
         self.decisions = {}      # tick -> {"asg": [...], "sus": [...]}
         self.known = set()
         self.suspended_seen = {}
+        self.tick_offset = None
         self.complete_reported = {}
         self.last_new = None
         self.last_payload_tick = None
@@ -95,6 +96,15 @@ class Server:
         if self.last_payload_tick is not None and body["tick"] <= self.last_payload_tick:
             raise Violation("C19.tick_not_increasing", {"tick": body["tick"], "previous": self.last_payload_tick}, t)
         self.last_payload_tick = body["tick"]
+        # the call says which tick it is: the label moves in step with the simulation (whatever its origin), and the time
+        # sent is that tick's time
+        off = body["tick"] - t
+        if self.tick_offset is None:
+            self.tick_offset = off
+        elif off != self.tick_offset:
+            raise Violation("C19.tick_label", {"sent_tick": body["tick"], "simulation_tick": t, "offset_at_first_call": self.tick_offset}, t)
+        if abs(body["sim_time_seconds"] - body["tick"] / tps) > 1e-9 * max(1.0, body["tick"] / tps) + 1.0 / tps * 1.000001 * 0:
+            raise Violation("C19.tick_label", {"sent_tick": body["tick"], "sent_time": body["sim_time_seconds"], "ticks_per_second": tps}, t)
         # results of the last tick
         last = R.tick_results[-1] if R.tick_results else []
         want = [{"ops": [str(o.id) for o in r.ops], "cpu": r.cpu, "ram": r.ram, "priority": r.priority.name,
